@@ -338,6 +338,14 @@ impl<T: AsRef<[u8]>> Frame<T> {
             }
 
             offset += self.security_header_len();
+
+            // The frame must also hold the message integrity code.
+            offset += match self.security_level() {
+                0 | 4 => 0,
+                1 | 5 => 4,
+                2 | 6 => 8,
+                _ => 16,
+            };
         }
 
         if offset > self.buffer.as_ref().len() {
